@@ -88,20 +88,36 @@ Record st := mkSt {
   vcwd  : string;          (* THREADLOCAL.curdir, the virtual working directory *)
   path  : list string;     (* sys.path *)
   meta  : list N;          (* sys.meta_path (finder identities) *)
-  mods  : mmap             (* sys.modules *)
+  mods  : mmap;            (* sys.modules *)
+  heap  : list (value * N) (* contents of mutable objects (lists such as sys.argv, objects with attributes):
+                              identity -> content stamp; an object not listed is pristine (stamp 0) *)
 }.
 
 Definition with_attrs (f : amap -> amap) (s : st) : st :=
-  mkSt (f (attrs s)) (cwd s) (vcwd s) (path s) (meta s) (mods s).
-Definition with_cwd (d : string) (s : st) : st := mkSt (attrs s) d (vcwd s) (path s) (meta s) (mods s).
-Definition with_vcwd (d : string) (s : st) : st := mkSt (attrs s) (cwd s) d (path s) (meta s) (mods s).
-Definition with_path (p : list string) (s : st) : st := mkSt (attrs s) (cwd s) (vcwd s) p (meta s) (mods s).
-Definition with_meta (m : list N) (s : st) : st := mkSt (attrs s) (cwd s) (vcwd s) (path s) m (mods s).
-Definition with_mods (m : mmap) (s : st) : st := mkSt (attrs s) (cwd s) (vcwd s) (path s) (meta s) m.
+  mkSt (f (attrs s)) (cwd s) (vcwd s) (path s) (meta s) (mods s) (heap s).
+Definition with_cwd (d : string) (s : st) : st := mkSt (attrs s) d (vcwd s) (path s) (meta s) (mods s) (heap s).
+Definition with_vcwd (d : string) (s : st) : st := mkSt (attrs s) (cwd s) d (path s) (meta s) (mods s) (heap s).
+Definition with_path (p : list string) (s : st) : st := mkSt (attrs s) (cwd s) (vcwd s) p (meta s) (mods s) (heap s).
+Definition with_meta (m : list N) (s : st) : st := mkSt (attrs s) (cwd s) (vcwd s) (path s) m (mods s) (heap s).
+Definition with_mods (m : mmap) (s : st) : st := mkSt (attrs s) (cwd s) (vcwd s) (path s) (meta s) m (heap s).
+Definition with_heap (h : list (value * N)) (s : st) : st :=
+  mkSt (attrs s) (cwd s) (vcwd s) (path s) (meta s) (mods s) h.
 
 Definition get (k : key) (s : st) : option value := aget k (attrs s).
 Definition set_attr (k : key) (v : value) (s : st) : st := with_attrs (aset k v) s.
 Definition del_attr (k : key) (s : st) : st := with_attrs (adel k) s.
+
+(* contents: the object identity is what attributes hold; an in-place edit (sys.argv[1:] = ...,
+   obj.attr = ...) changes the content of the object, whoever refers to it *)
+Fixpoint hget (v : value) (h : list (value * N)) : N :=
+  match h with [] => 0%N | (v', c) :: r => if value_eqb v v' then c else hget v r end.
+Definition content (o : option value) (s : st) : N :=
+  match o with Some VNone | None => 0%N | Some v => hget v (heap s) end.
+Definition mutate (k : key) (c : N) (s : st) : st :=
+  match get k s with
+  | Some VNone | None => s                       (* nothing / None: cannot be edited in place *)
+  | Some v => with_heap ((v, c) :: heap s) s
+  end.
 
 (* ---------------------------------------------------------------- patch.py *)
 
@@ -127,12 +143,17 @@ Definition end_patch (t : token) (s : st) : option st :=
   | Some (k, old) => Some (set_attr k old s)
   end.
 
+(* what the third argument of a triple evaluates to: a new object (function, StringIO(), a literal,
+   a copy such as list(sys.argv)) or - NSame - the very object the attribute already holds *)
+Definition newval (p : pspec) (base : N) (s : st) : value :=
+  match p_new p with NSame => old_of (get (pkey p) s) | _ => VFake base end.
+
 (* the __enter__ of patch(...) : the i-th triple installs the replacement VFake (base + i) *)
 Fixpoint patch_enter (ps : list pspec) (base : N) (s : st) : st * list token :=
   match ps with
   | [] => (s, [])
   | p :: r =>
-      let '(s1, t) := begin_patch p (VFake base) s in
+      let '(s1, t) := begin_patch p (newval p base s) s in
       let '(s2, ts) := patch_enter r (N.succ base) s1 in
       (s2, t :: ts)
   end.
@@ -159,7 +180,8 @@ Inductive op :=
 | OChdir (d : string)                  (* os.chdir(d) through whatever os.chdir currently is *)
 | OModIns (name : string) (kd : mkind) (* sys.modules[name] = ... / import of a local module *)
 | OModDel (name : string)              (* sys.modules.pop(name, None) *)
-| OPathIns (d : string).               (* sys.path.insert(0, d) *)
+| OPathIns (d : string)                (* sys.path.insert(0, d) *)
+| OMutate (k : key) (c : N).           (* in-place edit of the object the attribute holds (sys.argv[1:] = [...]) *)
 Inductive ending := Finish | Raise | SysExit | OsExit.
 Definition program := (list op * ending)%type.
 
@@ -180,7 +202,9 @@ Definition v_logging_showwarning : value := VOrig 5001.   (* logging._showwarnin
 Fixpoint fake_of (ps : list pspec) (base : N) (k : key) : option value :=
   match ps with
   | [] => None
-  | p :: r => if key_eqb (pkey p) k then Some (VFake base) else fake_of r (N.succ base) k
+  | p :: r => if key_eqb (pkey p) k
+              then match p_new p with NSame => None | _ => Some (VFake base) end
+              else fake_of r (N.succ base) k
   end.
 
 Definition opt_value_eqb (a b : option value) : bool :=
@@ -215,6 +239,7 @@ Definition run_op (e : env) (o : op) (s : st) : st :=
   | OModIns n kd => with_mods (mset n kd (mods s)) s
   | OModDel n => with_mods (mdel n (mods s)) s
   | OPathIns d => with_path (d :: path s) s
+  | OMutate k c => mutate k c s
   end.
 
 Definition run_ops (e : env) (os : list op) (s : st) : st := fold_left (fun a o => run_op e o a) os s.
@@ -251,7 +276,7 @@ Fixpoint begin_all (ps : list (pspec * bool)) (base : N) (s : st) : st * list (k
   match ps with
   | [] => (s, [])
   | (p, _) :: r =>
-      let '(s1, t) := begin_patch p (VFake base) s in
+      let '(s1, t) := begin_patch p (newval p base s) s in
       let '(s2, ts) := begin_all r (N.succ base) s1 in
       (s2, (pkey p, t) :: ts)
   end.
